@@ -197,3 +197,170 @@ Theorem C04_budget_zero_dispatches_nothing : forall F bld P N s,
   st_globals (snd (run F bld N P s)) = st_globals s /\ st_heap (snd (run F bld N P s)) = st_heap s.
 Proof. exact budget_zero_dispatches_nothing. Qed.
 Print Assumptions C04_budget_zero_dispatches_nothing.
+
+(* ------------------------------------------------------------------ the VM, second part (C04VmProofs2-7.v) *)
+From Cao Require Import C04VmProofs2 C04VmProofs3 C04VmProofs4 C04VmProofs5 C04VmProofs6 C04VmProofs6b C04VmProofs7 C04VmWitness.
+
+(* == (and with it table key lookup) is total on the live values of a closed heap whose tables are ranked
+   ([heap_acyclic]: a rank function on table addresses, strictly decreasing from a table to the tables it
+   mentions as key or value, and below eq_fuel - 1 = 23: acyclic, and nested less deep than the model's == looks) *)
+Theorem C04_equality_total : forall F h,
+  heap_acyclic h -> heap_closed h ->
+  forall a b, val_ok h a -> val_ok h b -> exists r, veq0 F h a b = Some r.
+Proof. exact veq0_tot. Qed.
+Print Assumptions C04_equality_total.
+
+(* AppendTable's search for a free integer key never runs out of its fuel (pigeonhole: length + 1 probes) *)
+Theorem C04_append_probe_terminates : forall F h m i,
+  tappend_idx (veq0 F h) (S (length m)) m i <> Some None.
+Proof. exact tappend_idx_not_fuel. Qed.
+Print Assumptions C04_append_probe_terminates.
+
+(* run_no_abort, one step, every opcode except CallNative (4) and CallFunction (11) of a native function value:
+   under [step_pre2] = operands inside the code, call stack not empty, ValueStack invariant, every address on the
+   value stack / in an object / in a closure frame alive, the open-upvalue list a duplicate-free chain of open
+   upvalues, the heap acyclic, jump operands non-negative, ForEach's counter non-negative in Debug builds,
+   RegisterUpvalue's captured variable exists.  The restrictions of step_pre on comparisons of two objects and on
+   open upvalues at Return / CloseUpvalue are gone. *)
+Theorem C04_step_no_abort_no_native :
+  forall F bld P reenter ip0 s,
+    step_pre2 F bld P ip0 s -> (opcode_at P ip0 <= 46)%N -> opcode_at P ip0 <> 4%N ->
+    (opcode_at P ip0 = 11%N -> forall a h, top1 s = VObj a -> hget (st_heap s) a <> Some (ONative h)) ->
+    forall a s', step F bld P reenter ip0 s <> SStop a s'.
+Proof. exact step_no_abort_no_native. Qed.
+Print Assumptions C04_step_no_abort_no_native.
+
+(* The natives.  [ninv] = the structural invariant vm_inv + acyclic heap + no native function VALUE in the heap
+   names a native that calls back.  Every native of the menu and __to_array return a value or an error and
+   keep ninv; call1 / try1 / call0 / rb1 do so when the nested run does ([reenter_ok]).
+   The stdlib natives __min, __max, __sort are not [covered_native]: they are in C04_native_call_ok0. *)
+Theorem C04_native_call_ok : forall F P reenter start,
+  code_ok P start -> reenter_ok P reenter start -> (0 < code_len P)%N ->
+  forall h s, ninv P start s ->
+    (forall n, find_native h all_natives = Some n -> covered_native n = true) ->
+    nres_ok P start s (call_native F P reenter h s).
+Proof. exact call_native_ok. Qed.
+Print Assumptions C04_native_call_ok.
+
+(* EVERY native (also __min, __max, __sort): no abort, and the state left satisfies vm_inv again (for these three
+   the heap is not shown to stay acyclic: the row / table they build holds values whose rank after the callbacks
+   is not known) *)
+Theorem C04_native_call_ok0 : forall F P reenter start,
+  code_ok P start -> reenter_ok P reenter start -> (0 < code_len P)%N ->
+  forall h s, ninv P start s -> nres_ok0 P start s (call_native F P reenter h s).
+Proof. exact call_native_ok0. Qed.
+Print Assumptions C04_native_call_ok0.
+
+(* run_no_abort, one step, ALL 47 opcodes and every native, under [step_pre3] =
+   the structural invariant [vm_inv] (which implies the structural part of step_pre2), the instruction pointer at
+   an instruction start of a well-formed code ([code_ok]: the VM's reading of C10, C04_wellformed_code_ok), and
+   [side]; nested runs (natives that call back) keep their contract [reenter_ok]. *)
+Theorem C04_step_no_abort :
+  forall F bld P reenter start,
+    code_ok P start -> reenter_ok P reenter start ->
+    forall ip0 s, step_pre3 F bld P start ip0 s ->
+    forall a s', step F bld P reenter ip0 s <> SStop a s'.
+Proof. exact step_no_abort_all. Qed.
+Print Assumptions C04_step_no_abort.
+
+(* preservation: the state of every non-abort result satisfies vm_inv0 again and no object died; after SNext the
+   call stack is not empty and the next instruction pointer is an instruction start.  (heap_acyclic is part of
+   [side], not of vm_inv: SetProperty / AppendTable can build a cycle, A-37.) *)
+Theorem C04_step_preserves :
+  forall F bld P reenter start,
+    code_ok P start -> reenter_ok P reenter start ->
+    forall ip0 s, step_pre3 F bld P start ip0 s ->
+    res_ok P start s (step F bld P reenter ip0 s).
+Proof. exact step_preserves. Qed.
+Print Assumptions C04_step_preserves.
+
+(* the dispatch loop: no abort (and enough fuel) as long as every dispatched instruction meets [side] *)
+Theorem C04_loop_no_abort :
+  forall F bld P reenter start,
+    code_ok P start -> reenter_ok P reenter start ->
+    (forall ip s, rres_R paid (cr s) (reenter ip s)) ->
+    forall fuel ip s,
+      vm_inv P start s -> ipok P start ip -> sides_hold F bld P reenter ip s -> (st_rem s <= N.of_nat fuel)%N ->
+      match loop F bld P reenter fuel ip s with
+      | RStop _ _ => False
+      | ROk s' | RErr _ _ s' => vm_inv0 P start s' /\ length (st_heap s) <= length (st_heap s')
+      end.
+Proof. exact loop_no_abort. Qed.
+Print Assumptions C04_loop_no_abort.
+
+(* Vm::run from a new VM (or from the state a previous run left) *)
+Theorem C04_run_no_abort_partial : forall F bld P start budget s,
+  code_ok P start ->
+  reenter_ok P (run_at F bld P false (N.of_nat budget) 129) start ->
+  vm_inv0 P start s ->
+  (forall s1, push_frame s (mkFrame 0 0 0 None) = Some s1 ->
+     sides_hold F bld P (run_at F bld P false (N.of_nat budget) 129) 0 (set_rem s1 (N.of_nat budget))) ->
+  forall a, fst (run F bld budget P s) <> OAbort a.
+Proof. exact run_no_abort. Qed.
+Print Assumptions C04_run_no_abort_partial.
+
+Theorem C04_fresh_state_inv : forall P start, vm_inv0 P start fresh_state.
+Proof. exact fresh_inv0. Qed.
+Print Assumptions C04_fresh_state_inv.
+
+(* necessity of the acyclic heap (finding A-37): t = {}; t[1] = t; t == t *)
+Theorem C04_cyclic_table_aborts : forall F bld,
+  fst (run F bld 100 cyclic_prog fresh_state) = OAbort ACrash /\
+  st_heap (snd (run F bld 100 cyclic_prog fresh_state)) = cyclic_heap.
+Proof. exact cyclic_table_aborts. Qed.
+Print Assumptions C04_cyclic_table_aborts.
+
+Theorem C04_cyclic_heap_not_acyclic : ~ heap_acyclic cyclic_heap.
+Proof. exact cyclic_heap_not_acyclic. Qed.
+Print Assumptions C04_cyclic_heap_not_acyclic.
+
+(* ---- what keeps the heap acyclic (C04VmProofs8.v, C04VmProofs9.v) ---- *)
+From Cao Require Import C04VmProofs8 C04VmProofs9 C04VmLink.
+
+(* every instruction except SetProperty (33), AppendTable (40) and the natives (CallNative; CallFunction of a
+   native function value) keeps heap_acyclic *)
+Theorem C04_step_keeps_acyclic : forall F bld P reenter ip0 s ip' s',
+  step F bld P reenter ip0 s = SNext ip' s' ->
+  heap_acyclic (st_heap s) -> heap_closed (st_heap s) ->
+  ~ In (opcode_at P ip0) [4; 33; 40]%N ->
+  (opcode_at P ip0 = 11%N -> forall a h, top1 s = VObj a -> hget (st_heap s) a <> Some (ONative h)) ->
+  heap_acyclic (st_heap s').
+Proof. exact step_keeps_acyclic. Qed.
+Print Assumptions C04_step_keeps_acyclic.
+
+(* SetProperty / AppendTable keep the ranks when the stored key and value are ranked below the instance
+   (vdepth = 1 + rank of a table, 0 of anything else); storing a table into a table that it reaches is how a
+   program builds a cycle (C04_cyclic_table_aborts) *)
+Theorem C04_set_property_ranked : forall F opc ip0 ip s ip' s' rk a,
+  i_33 F opc ip0 ip s = SNext ip' s' -> ranked (st_heap s) rk -> speek s 1 = VObj a ->
+  vdepth (st_heap s) rk (speek s 0) <= rk a -> vdepth (st_heap s) rk (speek s 2) <= rk a ->
+  ranked (st_heap s') rk.
+Proof. exact set_property_ranked. Qed.
+Print Assumptions C04_set_property_ranked.
+
+Theorem C04_append_table_ranked : forall F opc ip0 ip s ip' s' rk a,
+  i_40 F opc ip0 ip s = SNext ip' s' -> ranked (st_heap s) rk -> speek s 0 = VObj a ->
+  vdepth (st_heap s) rk (speek s 1) <= rk a -> ranked (st_heap s') rk.
+Proof. exact append_table_ranked. Qed.
+Print Assumptions C04_append_table_ranked.
+
+(* ---- C10 gives code_ok; Vm::run of a compiled program ---- *)
+Theorem C04_wellformed_code_ok : forall w B,
+  Wellformed.wellformed_gen w B ->
+  exists is, decode (p_bytecode B) = Some is /\ code_ok (C15Link.to_vm B) (wf_start is).
+Proof. exact wellformed_code_ok. Qed.
+Print Assumptions C04_wellformed_code_ok.
+
+Theorem C04_compiled_run_no_abort : forall (M : module) (o : options) (B : compiled),
+  compile M o = COk B -> Wellformed.program_in_range M o = true -> WellformedSide.program_utf8 M o = true ->
+  (N.of_nat (length (p_bytecode B)) < 2147483648)%N -> (N.of_nat (length (Compiler.p_data B)) < 4294967296)%N ->
+  exists is, decode (p_bytecode B) = Some is /\
+    forall F bld budget s,
+      reenter_ok (C15Link.to_vm B) (run_at F bld (C15Link.to_vm B) false (N.of_nat budget) 129) (wf_start is) ->
+      vm_inv0 (C15Link.to_vm B) (wf_start is) s ->
+      (forall s1, push_frame s (mkFrame 0 0 0 None) = Some s1 ->
+         sides_hold F bld (C15Link.to_vm B) (run_at F bld (C15Link.to_vm B) false (N.of_nat budget) 129) 0
+           (set_rem s1 (N.of_nat budget))) ->
+      forall a, fst (run F bld budget (C15Link.to_vm B) s) <> OAbort a.
+Proof. exact compiled_run_no_abort. Qed.
+Print Assumptions C04_compiled_run_no_abort.
